@@ -4,20 +4,41 @@ from common import sh2
 
 LEVEL = "proof"
 MANIFEST = {
-    "technique": "Coq proof over a hand-written Gallina model of mp4/crypto.go (protect ranges, IV increment, CTR/CBC-pattern "
-                 "sample crypt, EncryptFragment loop, saiz/senc/saio) + differential correspondence (extracted OCaml, instantiated "
-                 "with an AES-128 written in Gallina from FIPS-197, vs the Go code incl. the encrypted bytes)",
-    "level_text": "Theorems (coq/c07/C07Theorems.v), for all NALU layouts, sizes, keys, IVs and EVERY block cipher E: the sub-sample "
-                  "entries partition the sample with every clear count < 2^16; the per-byte clear/protected classification equals the "
-                  "one the property prescribes (cenc 96..111-byte clear lead and whole 16-byte blocks, cbcs parametric in the slice-header "
-                  "size); incrementIV is big-endian addition modulo 2^(8|iv|); counter intervals of distinct samples of a fragment are "
-                  "disjoint; CryptSampleCenc equals the reference CTR keystream over the protected bytes in order and the identity elsewhere. "
-                  "Explored, not proved: that the Go code behaves like the model (correspondence on generated inputs, encrypted bytes "
-                  "included) and the property predicates evaluated on real EncryptFragment output after an encode/decode cycle.",
-    "level_note": "Trusted: Coq kernel, extraction, OCaml/Go glue. The AVC slice-header size is tied to the C15 Gallina parser (coq/c15/C15Model.v, read-only import) in the Q cases; HEVC header sizes stay an oracle. Modelled, not verified: crypto/aes, cipher.NewCTR / NewCBCEncrypter "
-                  "(CTR = 128-bit big-endian counter, byte-wise keystream continuation), avc/hevc.ParseSliceHeader (an oracle: its "
-                  "observed sizes are inputs of the model), GetFullSamples. The Gallina AES is only the independent comparison cipher "
-                  "(validated against the FIPS-197 vectors inside Coq).",
+    "technique": "Coq proof over a hand-written Gallina model of mp4/crypto.go (protect ranges, getAVC/HEVCPSMaps + prot funcs, IV increment, "
+                 "CTR/CBC-pattern sample crypt, EncryptFragment loop and EncryptFragment over the bytes of a fragment, saiz/senc/saio) "
+                 "composed with the C15 Gallina models of avc/hevc.ParseSliceHeader and the C06 byte model of senc/saiz/saio (read-only "
+                 "imports) + differential correspondence (extracted OCaml, instantiated with an AES-128 written in Gallina from FIPS-197, "
+                 "vs the Go code incl. the encrypted bytes and the encoded boxes) + failing-input search on real EncryptFragment output",
+    "level_text": "Theorems (coq/c07/C07Theorems.v, 20, all closed), for all NALU layouts, sizes, keys, IVs and EVERY block cipher E: the "
+                  "sub-sample entries partition the sample with every clear count < 2^16; the per-byte clear/protected classification equals "
+                  "the one the property prescribes (cenc 96..111-byte clear lead and whole 16-byte blocks; cbcs for BOTH codecs with the "
+                  "slice-header size computed by the C15 model of avc/hevc.ParseSliceHeader: C07_cbcs_shape_avc / _hevc - every video NAL "
+                  "unit whose header parses is protected exactly from byte sh_size to its end, length fields, headers and non-video NAL "
+                  "units wherever they stand are clear, and the sample crypt over these ranges is the reference 1:9 CBC pattern); "
+                  "incrementIV is big-endian addition modulo 2^(8|iv|); no counter block is reused inside a fragment WITHOUT a bound "
+                  "hypothesis (uint32 sample sizes/count give < 2^60 blocks: C07_no_counter_reuse_fragment), an 8-byte IV keeps its 8 bytes "
+                  "in the upper half of every per-sample IV with the block count in the lower half (C07_iv8_layout), across fragments the "
+                  "IV restarts (C07_cross_fragment_restart, stated to delimit the scope); CryptSampleCenc / cryptSampleCbcs equal the "
+                  "reference CTR keystream / CBC pattern over the protected bytes and the identity elsewhere; over the BYTES of a fragment "
+                  "EncryptFragment keeps every other box, appends exactly saiz, saio, senc to the traf and changes the mdat payload at most "
+                  "at protected positions (C07_fragment_only_protected); skipping saio.offset[0] bytes of the written moof lands on the "
+                  "first senc entry and cutting pieces of the saiz sizes yields exactly the per-sample entries (C07_aux_traf, entries < 256 "
+                  "bytes; beyond: refuted, known finding C07-F1). Explored, not proved: that the Go code behaves like the model "
+                  "(correspondence on generated inputs: ranges with model-computed AVC and HEVC slice header sizes on real, mutated and "
+                  "synthetic access units with dependent / non-first slice segments, unusual NAL unit placements, encrypted bytes, encoded "
+                  "saiz/saio/senc boxes) and the property predicates evaluated on real EncryptFragment output after an encode/decode "
+                  "cycle (incl. HEVC header sizes known from the harness' own bit writer and a box-by-box diff of clear vs encrypted file). "
+                  "Partial: the theorems assume that a parsed slice header is not longer than its NAL unit (true of the byte readers, not "
+                  "proved over the C15 reader model); samples with zero-length NAL units are outside wf_nalus (the code refuses them for "
+                  "cbcs or leaves them clear; covered by correspondence only).",
+    "level_note": "Trusted: Coq kernel, extraction, OCaml/Go glue. The AVC and HEVC slice-header sizes are computed by the C15 Gallina parsers "
+                  "(coq/c15/C15Model.v, C15HevcModel.v, read-only imports) from the avcC / hvcC parameter sets in the Q/H/G/T cases; the R/F "
+                  "cases still feed observed sizes. Modelled, not verified: crypto/aes, cipher.NewCTR / NewCBCEncrypter "
+                  "(CTR = 128-bit big-endian counter, byte-wise keystream continuation), GetFullSamples, the box encoders of the boxes "
+                  "EncryptFragment does not touch (taken as bytes), the size fields of moof/traf and trun.data_offset (recomputed by "
+                  "Fragment.Encode; C05/C06). SencBox.AddSample is modelled as EncryptFragment uses it (uniform fragments); a fragment "
+                  "mixing samples with and without sub-sample map needs a 4-byte video sample without NAL unit and is outside the property. "
+                  "The Gallina AES is only the independent comparison cipher (validated against the FIPS-197 vectors inside Coq).",
 }
 
 
@@ -35,7 +56,9 @@ def run(ctx):
     ctx.cov["trusted_base"] = common.TRUSTED_BASE_COMMON + [
         "model: coq/c07/C07Model.v is a hand transcription of mp4/crypto.go (GetAVC/HEVCProtectRanges, AppendProtectRange, "
         "CryptSampleCenc, cryptSampleCbcs, cbcsCrypt, incrementIV, EncryptFragment loop + saio offset), SaizBox.AddSampleInfo, "
-        "SencBox.AddSample/EncodeSWNoHdr",
+        "SencBox.AddSample/EncodeSWNoHdr; C07CodecModel.v: getAVCPSMaps/getHEVCPSMaps/get*ProtFunc over the C15 parser models; "
+        "C07TrafModel.v: EncryptFragment over the bytes of a fragment with the C06 encoders of senc/saiz/saio",
+        "imported models (read-only): coq/c15/C15Model.v, C15HevcModel.v (parameter sets, slice headers), coq/c06/C06SencModel.v",
         "spec: coq/c07/C07Spec.v (per-byte mask of the property, reference CTR keystream, reference walk), written by hand",
         "coq/c07/C07Aes.v: AES-128 from FIPS-197, checked against the FIPS-197 / SP 800-38A vectors by vm_compute; used only as the "
         "independent cipher of the correspondence",
@@ -44,8 +67,10 @@ def run(ctx):
     ctx.assumptions += ["samples are concatenations of 4-byte-length-prefixed non-empty NAL units, total size < 2^32",
                         "the block cipher maps 16-byte blocks to 16-byte blocks (nothing else is assumed about it)",
                         "one traf / one trun per fragment (EncryptFragment rejects anything else)",
-                        "no counter reuse is stated for fragments using fewer than 2^128 blocks; mp4ff-encrypt restarts from the same "
-                        "IV in every fragment (the property speaks about one fragment)"]
+                        "sample sizes and the number of samples of a fragment are below 2^32 (trun fields)",
+                        "a parsed slice header is not longer than its NAL unit (hypothesis of the cbcs theorems)",
+                        "mp4ff-encrypt restarts from the same IV in every fragment: counter blocks repeat ACROSS the fragments of a "
+                        "file encrypted with one key (the property speaks about one fragment; C07_cross_fragment_restart)"]
     exe, model = build(ctx)
     pr = ctx.proofs("c07", "C07Theorems.v")
     # correspondence
@@ -57,6 +82,7 @@ def run(ctx):
     lines = cases.splitlines()
     res = common.run_model(model, cases, timeout=3000)
     mism = [l for l in res if not l.startswith("OK ")]
+    ctx.notes["model_out_of_fuel_skipped"] = sum(1 for l in res if l.endswith("skipped-outoffuel"))
     if len(res) != len(lines):
         raise common.CheckError("model driver answered %d of %d cases" % (len(res), len(lines)))
     distinct = len(set(l.split("\t", 2)[2] for l in lines if l.count("\t") >= 2))
@@ -77,7 +103,13 @@ def run(ctx):
                         "(+ a malformed stream: truncations, trailing bytes, bad/empty length fields, 32-bit wrap on video NALUs); "
                         "C CryptSampleCenc on arbitrary maps incl. maps beyond the sample, bad key/IV sizes; B/K cbcs both directions, "
                         "patterns 1:9, 0:0 and others; F EncryptFragment (AVC/HEVC/audio, cenc/cbcs, 8/16-byte IVs, extra boxes): senc state, "
-                        "IVs, sub-sample maps, saiz, encoded senc entries, saio offset, encrypted bytes",
+                        "IVs, sub-sample maps, saiz, encoded senc entries, saio offset, encrypted bytes; Q/H protect ranges where the model "
+                        "builds nothing from observations: AVC/HEVC slice header sizes from the C15 Gallina parsers (real slices cut/extended, "
+                        "mutated headers, synthetic HEVC access units from the harness' own bit writer: dependent and non-first slice segments, "
+                        "dims off the CTB grid, RPS in slice/SPS, long-term pics, list modification, entry points, header extension, emulation "
+                        "prevention in the header; AUD/SEI/filler/EOS/EOB placements, trailing non-video NALUs, zero-length NALUs, 1-3-byte "
+                        "NALUs, slices shorter than their header, samples without video NALU); G EncryptFragment with model-built parameter-set "
+                        "maps; T EncryptFragment over the bytes of the fragment (encoded traf children incl. the written saiz/saio/senc)",
     }
     ctx.cov["samples"] += [l[:300] for l in lines[60:63]] + [l[:300] for l in lines[-2:]]
     ctx.log("correspondence: %d cases, %d mismatches" % (len(lines), len(mism)))
@@ -113,7 +145,7 @@ def run(ctx):
     ctx.cov["rule"] = ("corr: %d case lines (kinds %s); distinct = distinct case lines; search: %d random fragments through InitProtect/"
                        "EncryptFragment/encode/decode with the clauses of the property evaluated in the harness (partition, per-byte shape, "
                        "saiz/saio vs the encoded senc, IV sequence, Go crypto/aes driven by the harness' own CTR / CBC-pattern loops, "
-                       "trun/tfdt unchanged; 0-2 other encrypted fragments in front (non-zero moof start), InitProtectData via ExtractInitProtectData on the re-decoded init in 1/4 of the runs, AES-192/256 keys in 1/9)" % (len(lines), kinds, ns))
+                       "trun/tfdt unchanged, box-by-box diff of the encoded clear and encrypted files (same boxes + saiz/saio/senc, trun data offset shifted by the added bytes, mdat equal outside the senc maps); 1/3 of the video fragments use a synthetic HEVC configuration whose slice header sizes are known from the harness' bit writer; unusual-but-valid NALU placements in every second video fragment; 0-2 other encrypted fragments in front (non-zero moof start), InitProtectData via ExtractInitProtectData on the re-decoded init in 1/4 of the runs, AES-192/256 keys in 1/9)" % (len(lines), kinds, ns))
 
 
 def replay(ctx, path):
